@@ -71,6 +71,61 @@ func runC14(c *Ctx) {
 	}
 
 	c.Rule("C14.1", "pooled buffers: no use or second release after Put, release-then-clear, swap discipline, no access after Close", 25)
+	// unguardedPutters[cell field]: functions that Put a buffer loaded from this cell without a dominating
+	// 'err == nil' test of the owner.  The "set the terminal error cell instead of clearing" idiom is only
+	// sound for a release site if no OTHER function can release the same cell regardless of the error cell.
+	unguardedPutters := map[*types.Var][]*ssa.Function{}
+	for _, fn := range p.Funcs {
+		ForEachInstr(fn, func(in ssa.Instruction) {
+			ci, b, ok := isPut(in)
+			if !ok || fromGet(b) {
+				return
+			}
+			_, fld := fieldCellOf(b)
+			if fld == nil {
+				return
+			}
+			guarded := false
+			for _, f := range FactsAt(ci.Block()) {
+				if cmp, ok := f.AsCmp(); ok && cmp.Op == token.EQL && IsNilConst(cmp.Y) {
+					if ef := LoadedField(cmp.X); ef != nil && ef.Name() == "err" {
+						guarded = true
+					}
+				}
+			}
+			if !guarded {
+				unguardedPutters[fld] = append(unguardedPutters[fld], fn)
+			}
+		})
+	}
+	errIdiomOKFor := func(fld *types.Var, self *ssa.Function) bool {
+		if self.Name() == "Close" {
+			return true // terminal: nothing of the adapter runs after Close
+		}
+		for _, f := range unguardedPutters[fld] {
+			if f != self {
+				// a helper only reachable through a guarded caller is fine: all its callers test err first
+				allGuarded := len(p.Callers(f)) > 0
+				for _, e := range p.Callers(f) {
+					g := false
+					for _, fct := range FactsAt(e.Site.Block()) {
+						if cmp, ok := fct.AsCmp(); ok && cmp.Op == token.EQL && IsNilConst(cmp.Y) {
+							if ef := LoadedField(cmp.X); ef != nil && ef.Name() == "err" {
+								g = true
+							}
+						}
+					}
+					if !g {
+						allGuarded = false
+					}
+				}
+				if !allGuarded {
+					return false
+				}
+			}
+		}
+		return true
+	}
 	for _, fn := range p.Funcs {
 		var puts []ssa.CallInstruction
 		var bufs []ssa.Value
@@ -119,10 +174,24 @@ func runC14(c *Ctx) {
 				}
 			}
 			// (c) release-then-clear
-			if fromGet(b) {
-				continue // local temporary
-			}
 			cellPath, cellFld := fieldCellOf(b)
+			if fromGet(b) {
+				// a temporary that was published into a field cell before being released is no longer local
+				published := false
+				ForEachInstr(fn, func(in ssa.Instruction) {
+					st, ok := in.(*ssa.Store)
+					if !ok || !instrBefore(st, put) {
+						return
+					}
+					if fa, ok := st.Addr.(*ssa.FieldAddr); ok && (strip(st.Val) == strip(b)) {
+						published = true
+						cellPath, cellFld = AddrPath(st.Addr), FieldOfAddr(fa)
+					}
+				})
+				if !published {
+					continue // local temporary
+				}
+			}
 			if cellFld == nil {
 				if _, isParam := strip(b).(*ssa.Parameter); isParam {
 					continue // ownership passed in by the caller (bufferPool wrappers)
@@ -143,8 +212,9 @@ func runC14(c *Ctx) {
 				if f == cellFld && AddrPath(st.Addr) == cellPath {
 					return strip(st.Val) != strip(b)
 				}
-				// terminal error cell of the same owner
-				if f.Name() == "err" && !IsNilConst(st.Val) && strings.HasPrefix(cellPath, PathOf(fa.X)+".") {
+				// terminal error cell of the same owner: accepted only if every OTHER function that releases a
+				// buffer read from this cell does so under a dominating 'err == nil' test of that owner
+				if f.Name() == "err" && !IsNilConst(st.Val) && strings.HasPrefix(cellPath, PathOf(fa.X)+".") && errIdiomOKFor(cellFld, fn) {
 					return true
 				}
 				return false
